@@ -335,6 +335,13 @@ func (pc *parentController) processNextWorkItem() bool {
 }
 
 func (pc *parentController) enqueueParentObject(obj interface{}) {
+	// A delete may be delivered as a tombstone; the filter below applies to
+	// the object it carries.
+	if tombstone, ok := obj.(cache.DeletedFinalStateUnknown); ok {
+		if parent, ok := tombstone.Obj.(*unstructured.Unstructured); ok {
+			obj = parent
+		}
+	}
 	// If the parent doesn't match our selector, and it doesn't have our
 	// finalizer, we don't care about it.
 	if parent, ok := obj.(*unstructured.Unstructured); ok {
